@@ -148,6 +148,13 @@ class EmbedModel(object):
             return [Seg(b[0], b[1], self.proto.kind_at(b[1]), t)]
         if t[0] == 'G':
             inner = self.seg_of(t[3][0][0], depth + 1) if len(t[3]) == 1 else None
+            if inner is not None and len(inner) != 1 and not any(s_.unknown for s_ in inner) and t[3][0][0] in self._content:
+                # a generator over an output bucket built so far: the same element expression applied to each of its runs
+                out = []
+                for s_ in inner:
+                    one = self._apply_elt(s_.copy(term=t), t)
+                    out.append(one)
+                return out
             if inner is None or len(inner) != 1 or inner[0].unknown:
                 return [Seg(None, None, None, t, unknown='generator over ' + show(t[3][0][0]))]
             seg = inner[0].copy(term=t)
@@ -180,6 +187,32 @@ class EmbedModel(object):
             return self.content_of(t, depth + 1)
         return [Seg(None, None, None, t, unknown=show(t)[:80])]
 
+    def _apply_elt(self, seg, t):
+        elt = t[2]
+        el = ('E', t[3][0][0], t[3][0][2])
+        if t[3][0][1]:
+            seg.unknown = 'filtered'
+            return seg
+        if elt == el:
+            return seg
+        if elt[0] == 'M' and elt[2] == 'replace' and elt[1] == el:
+            for n, x in elt[4]:
+                if n == 'kind':
+                    seg.kind = kind_of_attr_term(x)
+                    if seg.kind is None:
+                        seg.unknown = 'kind=' + show(x)
+                elif n == 'default' and x[0] == 'A' and x[2] in ('empty', '_empty'):
+                    seg.cleared = True
+                else:
+                    seg.unknown = 'replace(%s=...)' % n
+            return seg
+        seg.unknown = 'element expression ' + show(elt)[:80]
+        return seg
+
+    def is_empty(self, t):
+        init = self.interp.obj_init.get(t)
+        return t[0] in ('L', 'D') and init is not None and ((init[0] == 'T' and not init[1]) or (init[0] == 'C' and not init[2] and not init[3]))
+
     def content_of(self, t, depth=0):
         if t in self._content:
             return list(self._content[t])
@@ -207,6 +240,10 @@ class EmbedModel(object):
                     events.append(('put', e.target, e.args[0], e))
                 elif e.op == 'append':
                     self._content[e.target].append(Seg(None, None, None, e.args[0], unknown='single append ' + show(e.args[0])[:60]))
+                elif e.op == 'clear' or (e.op == 'delitem' and e.args and e.args[0] == ('SLICE', NONE, NONE)):
+                    self._content[e.target] = []        # `xs.clear()` / `del xs[:]`
+                elif e.op == 'setitem' and len(e.args) == 2 and e.args[0] == ('SLICE', NONE, NONE) and self.is_empty(e.args[1]):
+                    self._content[e.target] = []        # `xs[:] = []`
                 else:
                     self._content[e.target].append(Seg(None, None, None, None, unknown='%s()' % e.op))
         return dict(self._content)
